@@ -3,6 +3,7 @@
 package vf
 
 import (
+	"github.com/fxamacker/cbor/v2"
 	"bytes"
 	"crypto/sha256"
 	"encoding/hex"
@@ -217,6 +218,13 @@ func (failingStorable) CanCopyNonRefSimple() bool                { return false 
 func (failingStorable) CopyNonRefSimple() (atree.Storable, error) { return nil, fmt.Errorf("no") }
 
 // commitScenario returns a body (run under the controller) and the baseline observation.
+// failTI is a type info whose encoding fails (a caller-supplied component, like failingValue).
+type failTI struct{}
+
+func (failTI) Encode(*cbor.StreamEncoder) error { return fmt.Errorf("injected type-info encode failure") }
+func (failTI) IsComposite() bool                { return false }
+func (failTI) Copy() atree.TypeInfo             { return failTI{} }
+
 func commitScenario(a schedArg) (body func() string, baseline string, err error) {
 	var ops []Op
 	if a.Ops != nil {
@@ -248,6 +256,25 @@ func commitScenario(a schedArg) (body func() string, baseline string, err error)
 				return nil, err
 			}
 		}
+		if a.Variant == 3 {
+			// a root array and a root map whose TYPE INFO cannot be encoded (the root's extra data fails after the
+			// elements were encoded); the body removes them after the failed commit and commits again
+			fa, err := atree.NewArray(w.St, w.Addr, failTI{})
+			if err != nil {
+				return nil, err
+			}
+			if err := fa.Append(tu.Uint64Value(1)); err != nil {
+				return nil, err
+			}
+			fm, err := atree.NewMap(w.St, w.Addr, atree.NewDefaultDigesterBuilder(), failTI{})
+			if err != nil {
+				return nil, err
+			}
+			if _, err := fm.Set(CompareValue, GetHashInput, tu.Uint64Value(1), tu.Uint64Value(2)); err != nil {
+				return nil, err
+			}
+			w.failRoots = []atree.SlabID{fa.SlabID(), fm.SlabID()}
+		}
 		return w, nil
 	}
 	var prepared *World
@@ -262,16 +289,30 @@ func commitScenario(a schedArg) (body func() string, baseline string, err error)
 		if err != nil {
 			return "", err
 		}
-		if a.Variant == 2 {
+		if a.Variant == 2 || a.Variant == 3 {
 			first := w.commitRaw(workers, a.Relaxed)
 			if first == nil {
 				return "first commit succeeded although two slabs cannot be encoded", nil
 			}
-			if _, _, err := w.Conts[1].Map.Remove(CompareValue, GetHashInput, tu.Uint64Value(50)); err != nil {
-				return "", err
-			}
-			if _, err := w.Conts[2].Arr.Remove(w.Conts[2].Arr.Count() - 1); err != nil {
-				return "", err
+			if a.Variant == 3 {
+				for _, id := range w.failRoots {
+					if err := w.St.Remove(id); err != nil {
+						return "", err
+					}
+				}
+				// dirty a few more slabs so that several workers encode at the same time
+				for _, o := range []Op{{K: "append", C: 0, V: "t"}, {K: "mset", C: 1, Key: 7, V: "t"}, {K: "append", C: 2, V: "t"}} {
+					if err := w.Apply(o); err != nil {
+						return "", err
+					}
+				}
+			} else {
+				if _, _, err := w.Conts[1].Map.Remove(CompareValue, GetHashInput, tu.Uint64Value(50)); err != nil {
+					return "", err
+				}
+				if _, err := w.Conts[2].Arr.Remove(w.Conts[2].Arr.Count() - 1); err != nil {
+					return "", err
+				}
 			}
 			// drop whatever the failed (relaxed) commit already wrote from the comparison: start the log here
 			from := len(w.Ledger.Log)
